@@ -38,6 +38,18 @@ fn main() {
                 w.write_all(s.as_bytes()).unwrap();
             }
         }
+        "window" => {
+            // first the systematic enumeration (1 sale x 1 buy x offsets -33..33 x file order x buyer
+            // kind = 402 cases), then random cases
+            let mut r = rng::Rng::new(seed ^ 0xC02);
+            for i in 0..count {
+                let mut cr = r.fork();
+                let c = ledger::gen_window_case(&mut cr, if i < 402 { Some(i) } else { None });
+                let mut s = String::new();
+                ledger::run_case(&format!("W{}-{}", seed, i), &c, &mut s);
+                w.write_all(s.as_bytes()).unwrap();
+            }
+        }
         "app" => {
             let mut r = rng::Rng::new(seed ^ 0xA99);
             for i in 0..count {
